@@ -109,17 +109,20 @@ Struct(c, cs, i) ==
             \* SMA is updated incrementally from its own ROUNDED previous value, so the error
             \* the configured rounding introduces accumulates by up to half a unit per step
             LET steps == IF k = "SMA" THEN i - FirstHas(cs, Ref(c.name), i) ELSE 0
-            IN IF v.t = "q" /\ i - c.p + 1 >= 1
+            IN IF i - c.p + 1 < 1 THEN "ok"        \* window cut by a lifespan: cannot be judged
+               ELSE IF v.t = "q"
                   /\ LeU(InMin(cs, c.in, i - c.p + 1, i), Nq(v), rv, 1 + steps)
                   /\ LeU(Nq(v), InMax(cs, c.in, i - c.p + 1, i), rv, 1 + steps)
                THEN "ok" ELSE "struct_between"
        [] k = "VWMA" ->
-            IF v.t = "q" /\ i - c.p + 1 >= 1
+            IF i - c.p + 1 < 1 THEN "ok"
+            ELSE IF v.t = "q"
                /\ LeU(InMin(cs, Ref("close"), i - c.p + 1, i), Nq(v), rv, 1)
                /\ LeU(Nq(v), InMax(cs, Ref("close"), i - c.p + 1, i), rv, 1) THEN "ok" ELSE "struct_between"
        [] k \in {"EMA", "RMA"} ->
             LET f == FirstHas(cs, c.in, i)
-            IN IF v.t = "q" /\ f >= 1
+            IN IF TopAt(c, cs, 1).t # "n" THEN "ok"   \* history cut by a lifespan: cannot be judged
+               ELSE IF v.t = "q" /\ f >= 1
                   /\ LeU(InMin(cs, c.in, f, i), Nq(v), rv, 1)
                   /\ LeU(Nq(v), InMax(cs, c.in, f, i), rv, 1) THEN "ok" ELSE "struct_between"
        [] k = "OBV" ->
